@@ -66,3 +66,15 @@ func NondetGUID() (g [16]byte) {
 func DateEq(a, b time.Time) bool {
 	return Ticks(a) == Ticks(b)
 }
+
+// NondetDateKey is a date usable as a map key: the zero time or an instant
+// that is a whole, non-zero number of ticks (Go compares map keys exactly, the
+// wire only keeps ticks, so keys are drawn from values the wire can represent).
+func NondetDateKey() time.Time {
+	if Choose(0, 1) == 0 {
+		return time.Time{}
+	}
+	t := int64(NondetU64())
+	Assume(And(t != 0, And(t >= -MaxTick, t <= MaxTick)))
+	return time.Unix(0, t*100).UTC()
+}
